@@ -57,7 +57,7 @@ def setup_worker(tier=None):
 def cases(tier, seed):
   out = []
   q = tier == 'quick'
-  nds = 5 if q else 16
+  nds = 5 if q else 60
   nsets = 8 if q else 70
   for name in LEARNERS:
     dss = common.ds_specs(seed, 'C16' + name, nds, dmax=4)
